@@ -209,6 +209,16 @@ func newGoType(typ reflect.Type) (*GoType, error) {
 	// Add the new type to the registry before calling newGoType recursively
 	goTypeRegistry[typ] = goType
 
+	// A type that cannot be completed is taken out again: left in the
+	// registry, the half-built type (no attributes) would be handed out as if
+	// it were valid the next time this Go type is seen
+	registered := false
+	defer func() {
+		if !registered {
+			delete(goTypeRegistry, typ)
+		}
+	}()
+
 	// Register the indirect type as well (recursive call!)
 	indirectGoType, err := newGoType(indirectType)
 	if err != nil {
@@ -260,6 +270,7 @@ func newGoType(typ reflect.Type) (*GoType, error) {
 		goType.attributeNames = append(goType.attributeNames, attrName)
 	}
 	sort.Strings(goType.attributeNames)
+	registered = true
 	return goType, nil
 }
 
